@@ -314,8 +314,18 @@ def build_args(call):
         return f, [_coord_geo(a), a["op"], ell, S.make_projection(a["prj"]), a["to"]]
     if fn == "angle_op":
         def f(x, y, op, k):
+            if op.startswith("round"):
+                # (HP objects do not promise rounding: C12 names decimal, gradian, DMS and DDM objects)
+                return round(x, int(op[5:])) if type(x).__name__ != "HPAngle" else x.dec()
+            if op.startswith("to:"):
+                m = getattr(x, op[3:], None)         # a class has no method towards its own notation
+                return m() if m is not None else x.dec()
+            if op == "mod":
+                return x % abs(k) if type(x).__name__ in ("DMSAngle", "DDMAngle") else x.dec()
             return {"add": lambda: x + y, "sub": lambda: x - y, "neg": lambda: -x, "abs": lambda: abs(x), "mul": lambda: x * k,
-                    "div": lambda: x / k, "lt": lambda: x < y, "eq": lambda: x == y, "hp": lambda: x.hp(), "dms": lambda: (x.dms() if hasattr(x, "dms") else x.ddm())}[op]()
+                    "div": lambda: x / k, "lt": lambda: x < y, "eq": lambda: x == y, "hp": lambda: x.hp(), "dms": lambda: (x.dms() if hasattr(x, "dms") else x.ddm()),
+                    "rmul": lambda: k * x, "ne": lambda: x != y, "gt": lambda: x > y, "str": lambda: (str(x), repr(x)),
+                    "absneg": lambda: (abs(x), abs(-x), -abs(x)), "self": lambda: (x + x, x - x, x == x)}[op]()
         return f, [_angle_obj(a["c1"], a["x"]), _angle_obj(a["c2"], a["y"]), a["op"], a["k"]]
     if fn == "angle_rounded":
         # a DMS / DDM object whose last field was rounded up to 60 by the library's own round() (1d 59m 60.0s, 1d 60.0m)
@@ -544,6 +554,12 @@ def call_strategy(families=False):
         _fd("angle_op", c1=st.sampled_from(["dec", "hp", "gon", "dms", "ddm"]), c2=st.sampled_from(["dec", "hp", "gon", "dms", "ddm"]),
             x=S.floats(-180, 180), y=S.floats(-180, 180), op=st.sampled_from(["add", "sub", "neg", "abs", "mul", "div", "lt", "eq", "hp", "dms"]),
             k=st.sampled_from([2, 0.5, -3, 1.5])),
+        # the rest of the objects' interface on an object the caller keeps: rounding, modulo, reflected product, every conversion method
+        _fd("angle_op", c1=st.sampled_from(["dec", "hp", "gon", "dms", "ddm"]), c2=st.sampled_from(["dec", "hp", "gon", "dms", "ddm"]),
+            x=st.one_of(S.floats(-180, 180), S.floats(0, 90)), y=S.floats(-180, 180),
+            op=st.sampled_from(["round0", "round1", "round2", "round5", "round8", "round1", "round3", "mod", "rmul", "ne", "gt", "str", "absneg", "self",
+                                "to:dec", "to:rad", "to:hp", "to:gon", "to:deca", "to:hpa", "to:gona", "to:dms", "to:ddm"]),
+            k=st.sampled_from([2, 0.5, -3, 1.5, 7.25])),
     ]
     pool += [
         _fd("ntv2_obj", file=st.sampled_from(["A", "B"]), lat=S.floats(-34.9, -33.1), lon=S.floats(147.1, 148.9),
